@@ -444,6 +444,8 @@ class Outcome:
 def standard_check(prop, tier, seed, mod):
     """the pipeline of DESIGN.md 1.1 for one property"""
     t0 = time.time()
+    from lib import xlate
+    xlate.CURRENT["prop"] = prop
     findings = load_findings(prop)
     # 1+2: translate + prove
     gate = coq_gate()
